@@ -107,8 +107,26 @@ def run(R):
         R.check(st3 == 'ok' and b3 == a, 'genuine-rejected-after-neighbours', 'the genuine address no longer parses after its corrupted neighbours were tried', {'orig': s})
         R.case(mon.fp('subst', s), sample={'substituted': s})
 
+    def out_of_domain():
+        """between the valid cases the library is given things outside the property's domain - account ids that are not 32 bytes, workchains outside a signed byte,
+        strings of the wrong length - and asked to render whatever it accepted; none of it is judged, but the valid cases after it must not depend on it"""
+        junk = [lambda: Address('0:' + '5a' * 33), lambda: Address('0:' + 'a5' * 31), lambda: Address('-1:' + 'ff' * 64), lambda: Address('0:'), lambda: Address((0, b'\x01' * 33)),
+                lambda: Address((0, b'')), lambda: Address((200, bytes(32))), lambda: Address((-200, bytes(32))), lambda: Address('300:' + '00' * 32), lambda: Address('E' * 48), lambda: Address('E' * 52),
+                lambda: Address(''), lambda: Address(None), lambda: Address((0, bytes(40)))]
+        for mk in junk:
+            st, a = mon.call(mk)
+            R.cover('out_of_domain_outcomes', st)
+            if st == 'ok':
+                for args in ((), (False,), (True, False), (True, True, False, True)):
+                    mon.call(a.to_str, *args)
+                mon.call(repr, a)
+                mon.call(hash, a)
+            R.count('out_of_domain_addresses')
+
     wcs = [w for w in range(-128, 128) if (w + 128) % R.nshards == R.shard]
-    for wc in wcs:
+    for k, wc in enumerate(wcs):
+        if k % 8 == 1:
+            out_of_domain()
         for i, hp in enumerate(hashes(wc)):
             roundtrip(wc, hp)
     n_sub = (3 if quick else 120)
